@@ -24,6 +24,7 @@ HOURS = {
     "mid": ["23:30 - 0:30"],
     "all": ["0:00 - 24:00"],
 }
+OTHER_HOURS = [("mon - sun", ["13:00 - 15:00"])]
 DAYS = ["mon - fri", "mon, wed, fri", "sat, sun", "fri - mon", "mon - sun", "tue"]
 ZONES_Q = [None, "America/New_York", "Europe/London", "Asia/Kolkata", "Australia/Lord_Howe", "Pacific/Kiritimati", "Pacific/Pago_Pago"]
 STARTS = ["2025-01-06", "2025-03-03", "2025-09-29"]
@@ -91,11 +92,14 @@ def universe(tier):
     # A: calendars x zones x attachment (no leaves, ASAP)
     for hk in HOURS:
         for days in DAYS:
-            for att in ("own", "shift", "inherit"):
+            for att in ("own", "shift", "inherit", "inherit-shift", "inherit-hours"):
                 for z in ZONES_Q:
                     for L in (Ls if tier == "thorough" or z in (None, "America/New_York", "Asia/Kolkata") else (60,)):
                         for start in (STARTS if (z and (tier == "thorough" or hk in ("day", "night"))) else STARTS[:1]):
-                            yield {"hk": hk, "days": days, "att": att, "z": z, "L": L, "start": start, "alap": False, "lv": "none"}
+                            it = {"hk": hk, "days": days, "att": att, "z": z, "L": L, "start": start, "alap": False, "lv": "none"}
+                            if att in ("inherit-shift", "inherit-hours") and misaligned(it):
+                                continue   # slot-aligned hours and zone offsets only (the misaligned class is the open finding D19)
+                            yield it
     # B: project-level hours and the default calendar
     for L in Ls:
         for alap in (False, True):
@@ -205,6 +209,16 @@ def to_spec(it):
             spec["shifts_after"] = True   # the shift is declared after the resource that refers to it
     elif att == "inherit":
         resources = [{"id": "grp", "hours": hours, "children": [r]}]
+    elif att == "inherit-shift":
+        # the group states plain hours, the member overrides them with a shift of its own
+        spec["shifts"] = [{"id": "s1", "hours": hours}]
+        r["shift"] = "s1"
+        resources = [{"id": "grp", "hours": OTHER_HOURS, "children": [r]}]
+    elif att == "inherit-hours":
+        # the group refers to a shift, the member overrides it with plain hours of its own
+        spec["shifts"] = [{"id": "gs", "hours": OTHER_HOURS}]
+        r["hours"] = hours
+        resources = [{"id": "grp", "shift": "gs", "children": [r]}]
     elif att == "project":
         spec["pwh"] = hours
     if it["z"]:
